@@ -1017,6 +1017,83 @@ def _thread_flags(fn, body_list):
 PULL_METHODS = {'parse_statement'}
 
 
+def _thread_value(fn, body_list):
+  """if c1: ...; k = (a, b)  elif c2: ...; k = None  else: ...; k = (c, d)      followed by      if k is not None: BODY(k)
+     ->  BODY is moved into the branches whose value passes the test (k replaced by the value when that is a pure display)."""
+  changed = 0
+  i = 0
+  while i + 1 < len(body_list):
+    a, b = body_list[i], body_list[i + 1]
+    i += 1
+    if not (isinstance(a, ast.If) and a.orelse and isinstance(b, ast.If) and fn is not None):
+      continue
+    t = b.test
+    k, kind = None, None
+    if isinstance(t, ast.Compare) and len(t.ops) == 1 and isinstance(t.left, ast.Name) and ast.unparse(t.comparators[0]) == 'None' \
+        and isinstance(t.ops[0], (ast.Is, ast.IsNot)):
+      k, kind = t.left.id, ('notnone' if isinstance(t.ops[0], ast.IsNot) else 'none')
+    elif isinstance(t, ast.Name):
+      k, kind = t.id, 'truthy'
+    if k is None:
+      continue
+    # every read of k is inside b
+    inside = {id(x) for x in ast.walk(b)}
+    if any(isinstance(x, ast.Name) and x.id == k and isinstance(x.ctx, ast.Load) and id(x) not in inside for x in ast.walk(fn)):
+      continue
+    if any(_stores(x, k) for x in b.body + b.orelse):
+      continue
+
+    def outcome(v):
+      """Value of the test of b when k = v (True / False / None = unknown)."""
+      if isinstance(v, ast.Constant):
+        isnone = v.value is None
+        if kind == 'notnone':
+          return not isnone
+        if kind == 'none':
+          return isnone
+        return bool(v.value)
+      if isinstance(v, (ast.Tuple, ast.List, ast.Set, ast.Dict, ast.JoinedStr)):
+        if kind == 'notnone':
+          return True
+        if kind == 'none':
+          return False
+        n_el = len(v.keys) if isinstance(v, ast.Dict) else len(getattr(v, 'elts', getattr(v, 'values', [])))
+        return n_el > 0 if not isinstance(v, ast.JoinedStr) else None
+      return None
+
+    def tails(stmts, acc):
+      if not stmts:
+        return False
+      last = stmts[-1]
+      if isinstance(last, (ast.Raise, ast.Return, ast.Continue, ast.Break)):
+        return not any(_stores(x, k) for x in stmts)
+      if isinstance(last, ast.Assign) and len(last.targets) == 1 and isinstance(last.targets[0], ast.Name) and last.targets[0].id == k:
+        if any(_stores(x, k) for x in stmts[:-1]) or outcome(last.value) is None:
+          return False
+        acc.append((stmts, last))
+        return True
+      if isinstance(last, ast.If) and last.orelse:
+        return not any(_stores(x, k) for x in stmts[:-1]) and tails(last.body, acc) and tails(last.orelse, acc)
+      return False
+    acc = []
+    if not (tails(a.body, acc) and tails(a.orelse, acc)) or not acc:
+      continue
+    for stmts, last in acc:
+      v = last.value
+      taken = copy.deepcopy(b.body if outcome(v) else b.orelse)
+      if _pure(v):
+        sub = _Subst({k: v}, {})
+        taken = [sub.visit(x) for x in taken]
+        stmts[-1:] = taken or [ast.copy_location(ast.Pass(), last)]
+      else:
+        stmts.extend(taken)
+    ast.fix_missing_locations(a)
+    del body_list[i]
+    i -= 1
+    changed += 1
+  return changed
+
+
 def _unroll_literal_loop(fn, body_list):
   """for v in (E1, E2): BODY   ->   BODY[v:=E1]; BODY[v:=E2]      (few simple elements, small straight-line body)"""
   changed = 0
@@ -1086,6 +1163,7 @@ def loop_forms(tree):
       c += _rewrite_index_while(fn, body)
       c += _rewrite_append_loop(fn, body)
       c += _thread_flags(fn, body)
+      c += _thread_value(fn, body)
       c += _rewrite_for_genexp(fn, body, noret)
       c += _rewrite_pull_loop(fn, body)
       c += _unroll_literal_loop(fn, body)
